@@ -98,6 +98,7 @@ class PathEval:
         self.facts = []      # (pos, kind, D) kind in gt0, ge0, eq0, ne0
         self.events = []     # stores / calls / rets with evaluated operands
         self.visit = {}
+        self.conds = {}      # i1-ish value id -> ("cmp", pred, xaff, yaff) | ("const", bool), evaluated where it was computed
         self.infeasible = False
         self._run()
         self.facts = [(p, k, _reduce(k, d)) for (p, k, d) in self.facts]
@@ -162,6 +163,7 @@ class PathEval:
             prev = blocks[bi - 1] if bi > 0 else None
             # phis: simultaneous assignment from the values on the incoming edge
             newv = {}
+            newc = {}
             for i in f.blocks[b]:
                 if i.op != "phi":
                     break
@@ -169,14 +171,36 @@ class PathEval:
                 for (v, pb) in i.inc:
                     if pb == prev:
                         got = self.val(v)
+                        c = self._cond_of(v)
+                        if c is not None:
+                            newc[i.id] = c
                         break
                 newv[i.id] = got if got is not None else self.leaf(("v", i.id, nv))
             self.vals.update(newv)
+            for k_ in list(newv):
+                self.conds.pop(k_, None)
+            self.conds.update(newc)
             for i in f.blocks[b]:
                 op = i.op
                 if op == "phi":
                     continue
                 pos += 1
+                if op == "icmp":
+                    inner = self._cond_of(i.a[0]) if (P.const_int(i.a[1]) == 0 and i.pred in ("eq", "ne")) else None
+                    if inner is not None and inner[0] in ("cmp", "const"):
+                        self.conds[i.id] = inner if i.pred == "ne" else _neg(inner)
+                    else:
+                        self.conds[i.id] = ("cmp", i.pred, self.val(i.a[0]), self.val(i.a[1]))
+                elif op in ("zext", "sext", "trunc") or (op == "call" and i.callee and i.callee.startswith("llvm.expect")):
+                    c = self._cond_of(i.a[0])
+                    if c is not None:
+                        self.conds[i.id] = c
+                    else:
+                        self.conds.pop(i.id, None)
+                elif op == "xor" and P.const_int(i.a[1]) in (1, -1, True):
+                    c = self._cond_of(i.a[0])
+                    if c is not None:
+                        self.conds[i.id] = _neg(c)
                 if op in CASTS:
                     self.vals[i.id] = self.val(i.a[0])
                 elif op in ("add", "sub"):
@@ -315,6 +339,15 @@ class PathEval:
             if hit:
                 self.mem[k] = self.leaf(("clob", k, cn or "indirect", i.id, nv))
 
+    def _cond_of(self, o):
+        P = self.P
+        c = P.const_int(o)
+        if c is not None:
+            return ("const", bool(c))
+        if isinstance(o, int):
+            return self.conds.get(o)
+        return None
+
     # ----- branch facts -----
     def _cmp_of(self, o, pol=True, depth=0):
         """operand-level walk to the comparison deciding a branch: returns (pred, lhs, rhs, pol) or None"""
@@ -347,18 +380,17 @@ class PathEval:
             return
         if len(t.succ) != 2 or t.succ[0] == t.succ[1]:
             return
-        c = self._cmp_of(t.a[0])
-        if c is None:
+        c = self._cond_of(t.a[0])
+        if c is None or c[0] != "cmp":
             return
-        pred, l, r, pol = c
+        _, pred, x, y = c
+        pol = True
         if nxt == t.succ[1]:
             pol = not pol
         elif nxt != t.succ[0]:
             return
-        x, y = self.val(l), self.val(r)
         if not pol:
-            pred = {"eq": "ne", "ne": "eq", "ult": "uge", "uge": "ult", "ugt": "ule", "ule": "ugt",
-                    "slt": "sge", "sge": "slt", "sgt": "sle", "sle": "sgt"}[pred]
+            pred = NEGPRED[pred]
         d = a_add(x, y, -1)   # x - y
         if pred == "eq":
             self.facts.append((pos, "eq0", d))
@@ -440,6 +472,16 @@ class PathEval:
 
     def cell(self, key):
         return self.mem.get(key)
+
+
+NEGPRED = {"eq": "ne", "ne": "eq", "ult": "uge", "uge": "ult", "ugt": "ule", "ule": "ugt",
+           "slt": "sge", "sge": "slt", "sgt": "sle", "sle": "sgt"}
+
+
+def _neg(c):
+    if c[0] == "const":
+        return ("const", not c[1])
+    return ("cmp", NEGPRED[c[1]], c[2], c[3])
 
 
 def _reduce(kind, d):
